@@ -46,4 +46,29 @@ CLAIMS = {
         "note": TRUST + " The spec tables in rules/props/c08.py are trusted.",
         "technique": "exhaustive pattern-matrix table extraction (THIR) compared with a spec table",
     },
+    "C18": {
+        "text": "Exhaustive over all 23x23 TyKind pairs: whenever either side is a kind the unifier can relate to a different kind (the set "
+                "is derived from relate_ty_ty's own extracted table) the pre-filter answers constant true; a same-constructor arm becomes "
+                "false only through equality of a field the unifier also compares or through could_match/zip_substs on corresponding "
+                "components; lifetimes/consts/binders never reject; every user filters against the goal it is solving. This decides the "
+                "property for type structure.",
+        "note": TRUST + " The derived Zip impls for DomainGoal/TraitRef wrappers are trusted to zip corresponding fields.",
+        "technique": "exhaustive two-column pattern-matrix evaluation (THIR) cross-checked against the unifier's matrix",
+    },
+    "C20": {
+        "text": "The clause tables that constitute the orphan rules are compared with a spec: TraitDatum's LocalImplAllowed clauses "
+                "(exclusive IsFullyVisible prefix 0..i then IsLocal(p_i), over all parameters), AdtDatum's IsLocal/IsUpstream/"
+                "DownstreamType/IsFullyVisible clauses under all four (upstream, fundamental) flag assignments (symbolic evaluation of "
+                "the flag conditions), coverage of built-in types by match_ty, and the orphan goal's shape and error edge.",
+        "note": TRUST + " Known finding F8 (built-in types get no IsUpstream/IsFullyVisible clauses) is listed in known_findings.jsonl.",
+        "technique": "symbolic evaluation of flag conditions over THIR + clause-shape tables vs spec + MIR edge dominance",
+    },
+    "C26": {
+        "text": "All compute_flags tables are extracted and compared with a spec: every term-carrying field of every TyKind, WhereClause, "
+                "AliasTy and const is consumed by a flag-producing expression (field coverage over the ADT definitions), leaf kinds "
+                "contribute exactly their own flags and composite kinds none, the two const-value tables agree, Substitution ORs all "
+                "arguments, and TyData.flags is only built from compute_flags of the same kind in every crate.",
+        "note": TRUST + " 'projection'/'opaque' are read as AliasTy occurrences (TyKind::AssociatedType/OpaqueType set no flag today; recorded as an interpretation).",
+        "technique": "field-coverage analysis over ADT definitions + exhaustive match-table extraction vs spec table",
+    },
 }
